@@ -128,14 +128,14 @@ type ContractSet struct {
 	// sites inside the declaring package and never clash with the callee's own contract.
 	LocalAssumes map[string]map[string]*FuncContract
 	GInvs        []*GlobalInv
-	Funcs    map[string]*FuncContract
-	Ghosts   map[string]*GhostDecl
-	Specs    map[string]*SpecFunc
-	Axioms   []*Axiom
-	Monitors []*Monitor
-	Pures    []PureDecl
-	Order    []string
-	Lemmas   []*Axiom
+	Funcs        map[string]*FuncContract
+	Ghosts       map[string]*GhostDecl
+	Specs        map[string]*SpecFunc
+	Axioms       []*Axiom
+	Monitors     []*Monitor
+	Pures        []PureDecl
+	Order        []string
+	Lemmas       []*Axiom
 }
 
 func newContractSet() *ContractSet {
